@@ -136,15 +136,30 @@ func c16CheckCapability(ue *tglib.RanUeContext) (string, error) {
 	return "", nil
 }
 
-func c16Oracle(c c16Case) ev.Verdict {
+func c16Oracle(c c16Case) (v ev.Verdict) {
 	imsi := c.MCC + c.MNC + c.MSIN
-	v := ev.Verdict{NT: c.N >= 2}
+	v = ev.Verdict{NT: c.N >= 2}
 	if len(imsi) > 15 || len(c.MSIN) < 1 || c.N < 1 || c.N > 10000 {
 		v.Skip = true
 		return v
 	}
+	var priors []*tglib.RanUeContext
+	credsOf := func(ue *tglib.RanUeContext) (k, opc, op string) {
+		a := ue.AuthenticationSubs
+		if a.PermanentKey != nil {
+			k = a.PermanentKey.PermanentKeyValue
+		}
+		if a.Opc != nil {
+			opc = a.Opc.OpcValue
+		}
+		if a.Milenage != nil && a.Milenage.Op != nil {
+			op = a.Milenage.Op.OpValue
+		}
+		return
+	}
 	for pi, p := range c.Prior {
 		ue := stgutg.CreateUE(imsi, 0, p[0], p[1], p[2])
+		priors = append(priors, ue)
 		a := ue.AuthenticationSubs
 		if a.PermanentKey == nil || a.PermanentKey.PermanentKeyValue != p[0] || a.Opc == nil || a.Opc.OpcValue != p[1] ||
 			a.Milenage == nil || a.Milenage.Op == nil || a.Milenage.Op.OpValue != p[2] {
@@ -190,6 +205,28 @@ func c16Oracle(c c16Case) ev.Verdict {
 		v.Classes = append(v.Classes, "op-only")
 	}
 
+	// a UE that exists keeps its credentials: UEs made earlier with other credentials are looked at again after the
+	// population below has been created (and the first UEs of the population after all the others)
+	var firstOfPopulation []*tglib.RanUeContext
+	defer func() {
+		if v.Err != nil {
+			return
+		}
+		for pi, ue := range priors {
+			if k, opc, op := credsOf(ue); k != c.Prior[pi][0] || opc != c.Prior[pi][1] || op != c.Prior[pi][2] {
+				v.Key = "CreateUE:credentials-changed-by-later-ues"
+				v.Err = fmt.Errorf("UE created earlier with (K=%q, OPc=%q, OP=%q) carries (K=%q, OPc=%q, OP=%q) after %d UEs with other credentials were created", c.Prior[pi][0], c.Prior[pi][1], c.Prior[pi][2], k, opc, op, c.N)
+				return
+			}
+		}
+		for _, ue := range firstOfPopulation {
+			if k, opc, op := credsOf(ue); k != c.K || opc != c.OPC || op != c.OP {
+				v.Key = "CreateUE:credentials-changed-by-later-ues"
+				v.Err = fmt.Errorf("a UE of the population (K=%q, OPc=%q, OP=%q) carries (K=%q, OPc=%q, OP=%q) after the later UEs were created", c.K, c.OPC, c.OP, k, opc, op)
+				return
+			}
+		}
+	}()
 	supis := make(map[string]int, c.N)
 	ranIDs := make(map[int64]int, c.N)
 	prefix := "imsi-" + c.MCC + c.MNC
@@ -229,6 +266,9 @@ func c16Oracle(c c16Case) ev.Verdict {
 			return v
 		}
 		ranIDs[ue.RanUeNgapId] = i
+		if i < 3 {
+			firstOfPopulation = append(firstOfPopulation, ue)
+		}
 		if ue.RanUeNgapId < 0 || ue.RanUeNgapId > 1<<32-1 {
 			v.Key, v.Err = "CreateUE:ran-ue-ngap-id-range", fmt.Errorf("UE %d: RAN-UE-NGAP-ID %d outside 0..2^32-1", i, ue.RanUeNgapId)
 			return v
